@@ -170,6 +170,12 @@ pub fn blend_eq(chk: &mut Chk, s: &BilSyms, out: Sym, i: usize, j: usize, l: usi
 }
 
 pub fn check_config(cfg: &Cfg) -> Report {
+    check_config_for("C04", cfg)
+}
+/// `prop` = "C04": in-range queries, closed cells, all corollaries; "C06": extrapolating interpolator,
+/// unconstrained query, border cells open to the outside, blend-value obligations only
+pub fn check_config_for(prop: &str, cfg: &Cfg) -> Report {
+    let c04 = prop == "C04";
     with_ctx(|c| c.reset_all());
     let mut chk = Chk::new(Mode::R, cfg.timeout_ms);
     chk.begin_config(&cfg.name());
@@ -178,10 +184,12 @@ pub fn check_config(cfg: &Cfg) -> Report {
     let mut ecfg = ExploreCfg::new(Mode::R, nx.max(ny) - 1);
     ecfg.timeout_ms = cfg.timeout_ms;
     let (paths, st) = explore(&ecfg, || {
-        Sym::assume_le(s.x[0], s.qx);
-        Sym::assume_le(s.qx, s.x[nx - 1]);
-        Sym::assume_le(s.y[0], s.qy);
-        Sym::assume_le(s.qy, s.y[ny - 1]);
+        if c04 {
+            Sym::assume_le(s.x[0], s.qx);
+            Sym::assume_le(s.qx, s.x[nx - 1]);
+            Sym::assume_le(s.y[0], s.qy);
+            Sym::assume_le(s.qy, s.y[ny - 1]);
+        }
         let a = eval_bilinear(cfg, &s.x, &s.y, &s.z, s.qx, s.qy);
         let t = if cfg.transposed_twin { Some(eval_transposed(cfg, &s)) } else { None };
         (a, t)
@@ -199,7 +207,7 @@ pub fn check_config(cfg: &Cfg) -> Report {
             Ok((Ok(out), twin)) => {
                 for i in 0..nx - 1 {
                     for j in 0..ny - 1 {
-                        let prem = cell_premise(&mut chk, &s, i, j, false);
+                        let prem = cell_premise(&mut chk, &s, i, j, !c04);
                         let mut pre = pcs.clone();
                         pre.push(prem);
                         if !matches!(chk.feasible(&pre), Answer::Sat) {
@@ -219,7 +227,17 @@ pub fn check_config(cfg: &Cfg) -> Report {
                             a.push(format!("(not {eq})"));
                             if let Verdict::Cex(vals) = chk.must_unsat("blend-value", &format!("path {pi} cell ({i},{j}) lane {l}: bilinear blend of the four corners"), &a, &all_vars) {
                                 let (rep, rec) = replay_bilinear(cfg, &model_of(&vals));
-                                chk.finding(&format!("C04:wrong-value:{:?}", cfg.entry), &format!("{}: result is not the bilinear blend of cell ({i},{j}), lane {l}", cfg.name()), rec, rep);
+                                chk.finding(&format!("{prop}:wrong-value:{:?}", cfg.entry), &format!("{}: result is not the bilinear blend of cell ({i},{j}), lane {l}", cfg.name()), rec, rep);
+                            }
+                            if !canary_done && covered[i][j] {
+                                let wrong = blend_eq(&mut chk, &s, out[l], i, j, l, true);
+                                let mut a = pre.clone();
+                                a.push(format!("(not {wrong})"));
+                                chk.canary(&format!("path {pi} cell ({i},{j}): oracle with the mixed neighbours z12/z21 swapped"), &a);
+                                canary_done = true;
+                            }
+                            if !c04 {
+                                continue;
                             }
                             // nodes reproduced (all four corners of the cell)
                             for (di, dj) in [(0, 0), (1, 0), (0, 1), (1, 1)] {
@@ -229,7 +247,7 @@ pub fn check_config(cfg: &Cfg) -> Report {
                                 a.push(format!("(not (= {} {}))", chk.term(out[l]), chk.term(s.z[i + di][j + dj][l])));
                                 if let Verdict::Cex(vals) = chk.must_unsat("node-value", &format!("path {pi} node ({},{}) lane {l}: grid node reproduced", i + di, j + dj), &a, &all_vars) {
                                     let (rep, rec) = replay_bilinear(cfg, &model_of(&vals));
-                                    chk.finding(&format!("C04:node-not-reproduced:{:?}", cfg.entry), &format!("{}: grid node ({},{}) not reproduced, lane {l}", cfg.name(), i + di, j + dj), rec, rep);
+                                    chk.finding(&format!("{prop}:node-not-reproduced:{:?}", cfg.entry), &format!("{}: grid node ({},{}) not reproduced, lane {l}", cfg.name(), i + di, j + dj), rec, rep);
                                 }
                             }
                             // on the grid line x = x_i the value is the 1-D linear interpolation along y (and likewise for y = y_j)
@@ -241,21 +259,14 @@ pub fn check_config(cfg: &Cfg) -> Report {
                             a.push(format!("(not (= (* (- {o} {z11}) (- {y2} {y1})) (* (- {z12} {z11}) (- {qy} {y1}))))"));
                             if let Verdict::Cex(vals) = chk.must_unsat("grid-line", &format!("path {pi} cell ({i},{j}) lane {l}: along the line x = x[{i}] the value is the 1-D interpolation in y"), &a, &all_vars) {
                                 let (rep, rec) = replay_bilinear(cfg, &model_of(&vals));
-                                chk.finding(&format!("C04:grid-line:{:?}", cfg.entry), &format!("{}: along a grid line in y the value is not the 1-D linear interpolation (cell ({i},{j}), lane {l})", cfg.name()), rec, rep);
+                                chk.finding(&format!("{prop}:grid-line:{:?}", cfg.entry), &format!("{}: along a grid line in y the value is not the 1-D linear interpolation (cell ({i},{j}), lane {l})", cfg.name()), rec, rep);
                             }
                             let mut a = pre.clone();
                             a.push(format!("(= {qy} {y1})"));
                             a.push(format!("(not (= (* (- {o} {z11}) (- {x2} {x1})) (* (- {z21} {z11}) (- {qx} {x1}))))"));
                             if let Verdict::Cex(vals) = chk.must_unsat("grid-line", &format!("path {pi} cell ({i},{j}) lane {l}: along the line y = y[{j}] the value is the 1-D interpolation in x"), &a, &all_vars) {
                                 let (rep, rec) = replay_bilinear(cfg, &model_of(&vals));
-                                chk.finding(&format!("C04:grid-line:{:?}", cfg.entry), &format!("{}: along a grid line in x the value is not the 1-D linear interpolation (cell ({i},{j}), lane {l})", cfg.name()), rec, rep);
-                            }
-                            if !canary_done && covered[i][j] {
-                                let wrong = blend_eq(&mut chk, &s, out[l], i, j, l, true);
-                                let mut a = pre.clone();
-                                a.push(format!("(not {wrong})"));
-                                chk.canary(&format!("path {pi} cell ({i},{j}): oracle with the mixed neighbours z12/z21 swapped"), &a);
-                                canary_done = true;
+                                chk.finding(&format!("{prop}:grid-line:{:?}", cfg.entry), &format!("{}: along a grid line in x the value is not the 1-D linear interpolation (cell ({i},{j}), lane {l})", cfg.name()), rec, rep);
                             }
                         }
                     }
@@ -272,11 +283,11 @@ pub fn check_config(cfg: &Cfg) -> Report {
                                 a.push(format!("(not (= {} {}))", chk.term(out[l]), chk.term(tv[l])));
                                 if let Verdict::Cex(vals) = chk.must_unsat("transposition", &format!("path {pi} lane {l}: transposed data with swapped axes and query gives the same value"), &a, &all_vars) {
                                     let (rep, rec) = replay_bilinear(cfg, &model_of(&vals));
-                                    chk.finding(&format!("C04:transposition:{:?}", cfg.entry), &format!("{}: transposing data and swapping axes/query changes the value (lane {l})", cfg.name()), rec, rep.map(|_| true));
+                                    chk.finding(&format!("{prop}:transposition:{:?}", cfg.entry), &format!("{}: transposing data and swapping axes/query changes the value (lane {l})", cfg.name()), rec, rep.map(|_| true));
                                 }
                             }
                         }
-                        Err(e) => chk.finding(&format!("C04:transposed-twin-not-answered:{:?}", cfg.entry), &format!("{}: transposed twin not answered: {e}", cfg.name()), Json::obj().with("config", cfg.name()), None),
+                        Err(e) => chk.finding(&format!("{prop}:transposed-twin-not-answered:{:?}", cfg.entry), &format!("{}: transposed twin not answered: {e}", cfg.name()), Json::obj().with("config", cfg.name()), None),
                     }
                 }
             }
@@ -285,7 +296,7 @@ pub fn check_config(cfg: &Cfg) -> Report {
                 if matches!(ans, Answer::Sat) {
                     let (rep, rec) = replay_bilinear(cfg, &model_of(&vals));
                     let kind = if p.result.is_err() { "panic" } else { "error" };
-                    chk.finding(&format!("C04:in-range-query-{kind}:{:?}", cfg.entry), &format!("{}: in-range query not answered: {e}", cfg.name()), rec, rep);
+                    chk.finding(&format!("{prop}:in-range-query-{kind}:{:?}", cfg.entry), &format!("{}: in-range query not answered: {e}", cfg.name()), rec, rep);
                 }
             }
         }
